@@ -99,14 +99,14 @@ CLAIMED = {
    note="Trusted: Coq kernel, extraction, OCaml driver, Rust harness, Python rose-tree specification. File front ends (VCD/FST/GHW) reach the builder through C09/C10/C11.",
    technique="correspondence: Coq model extracted to OCaml vs real builder (exhaustive small scope) + rose-tree oracle"),
  "C16": dict(
-   category="translation_validation",
+   category="proof",
    text="The Gallina model of detect_file_format (is_vcd/read_command matcher, the dependency's FST block walk with its i64 seek "
         "arithmetic, read_ghw_header) is run, extracted to OCaml, against viewers::open_and_detect_file_format under a watchdog on every "
         "string of length <= 1 and a third (thorough: all) of length 2, first byte x corner values of the block length field, `$`+word "
         "forms, truncated/corrupted magics, generated VCDs and all corpus files; oracle: never panic/hang outside the two recorded "
         "classes of the FST block walk (D13 cycle = hang, D17 overflow = panic; both reproduced by the model, which found D13 through its "
         "termination argument), files classified by their real format, data beginning like none of the formats is Unknown. "
-        "detect_total is refuted on this tree (known findings), detect_classifies is not yet proved, hence the level.",
+        "Proved: the VCD and GHW probes are total, detection is total whenever every declared FST block length points forward (detect_total_forward), data beginning like none of the formats is Unknown, inputs starting with a VCD command closed by `$end` are VCD, inputs starting with a legal GHW header are GHW; detect_total itself is refuted on this tree by two machine-checked witnesses (known findings D13, D17). Classification of FST files rests on the dependency's container (A-fst) and is tested on the corpus.",
    design_ref="DESIGN.md section 6, C16",
    note="Trusted: Coq kernel, extraction, OCaml driver, Rust harness + watchdog, Python class predicate. Seeks to offsets in (2^40, 2^63) are excluded (file-system dependent EINVAL).",
    technique="correspondence: Coq model (incl. dependency's block walk) extracted to OCaml vs real detection + totality/classification oracle"),
@@ -201,6 +201,14 @@ CLAIMED = {
 
 NOT_YET = {}
 
+def pinned(pid):
+    import re
+    path = os.path.join(VERIF, "coq", "Properties", pid + ".v")
+    if not os.path.exists(path):
+        return []
+    return re.findall(r"^Check\s+@?([A-Za-z0-9_']+)", open(path).read(), re.M)
+
+
 def main():
     props = [json.loads(l) for l in open(os.path.join(VERIF, "properties.jsonl"))]
     checks = []
@@ -216,7 +224,9 @@ def main():
                 "evidence_file": "/verif/evidence/%s.json" % pid,
                 "replay_cmd_template": "./check %s --replay {path}" % pid,
                 "engine": "coq-model-correspondence",
-                "level_claimed": {"category": c["category"], "text": c["text"], "design_ref": c["design_ref"]},
+                "level_claimed": {"category": c["category"],
+                                  "text": c["text"] + (" Pinned machine-checked theorems (coq/Properties/%s.v, all closed under the global context): %s." % (pid, ", ".join(pinned(pid))) if pinned(pid) else " No theorem is pinned for this property yet."),
+                                  "design_ref": c["design_ref"]},
                 "level_note": c["note"],
                 "technique": c["technique"],
             })
